@@ -27,6 +27,21 @@ func Find(fns []*ssa.Function, name string) *ssa.Function {
 			return f
 		}
 	}
+	// a method keeps its identity when its receiver changes between T and *T
+	alt := ""
+	switch {
+	case strings.HasPrefix(name, "(*"):
+		alt = "(" + name[2:]
+	case strings.HasPrefix(name, "("):
+		alt = "(*" + name[1:]
+	}
+	if alt != "" {
+		for _, f := range fns {
+			if Name(f) == alt {
+				return f
+			}
+		}
+	}
 	return nil
 }
 
